@@ -186,19 +186,21 @@ _TABLES = [
 ]
 
 
-def make_history(oid, n_face, n_max, n_node, tiers=("quick", "thorough")):
-    """a second grid's edge tables do not depend on a grid whose edges were derived before in the same process"""
+def make_history(oid, n_face, n_max, n_node, tiers=("quick", "thorough"), first=None):
+    """a second grid's edge tables do not depend on a grid whose edges were derived before in the same process;
+    first=(n_face0, n_max0): the earlier grid has another shape (same number of table entries: memo keys built from the flat content collide)"""
     lon, lat = C.default_lonlat(n_node)
+    nf0, nm0 = first or (n_face, n_max)
 
     def setup(ctx):
-        fa, na = C.sym_face_table(ctx, n_face, n_max, n_node, prefix="fa")
+        fa, na = C.sym_face_table(ctx, nf0, nm0, n_node, prefix="fa")
         fn, nf = C.sym_face_table(ctx, n_face, n_max, n_node, prefix="fn")
         return fa, fn, nf
 
     def run(ctx, inp):
         fa, fn, nf = inp
         symnp.UNIQUE_MODE[0] = "relational"
-        symnp.CAP[0] = n_face * n_max
+        symnp.CAP[0] = max(n_face * n_max, nf0 * nm0)
         g0 = C.clone_grid(C.sarr_int(fa), lon, lat)
         g0.face_edge_connectivity, g0.n_edge
         g = C.clone_grid(C.sarr_int(fn), lon, lat)
@@ -231,7 +233,7 @@ def make_history(oid, n_face, n_max, n_node, tiers=("quick", "thorough")):
         return None
 
     return Obligation(oid, f"history: edges of a second grid after another grid's edges were derived ({n_face} faces x {n_max})", setup, run, replay,
-                      exact=True, functions=FUNCS, bounds=f"two grids of {n_face} faces x <= {n_max} corners, nodes < {n_node}", tiers=tiers, cost=3,
+                      exact=True, functions=FUNCS, bounds=f"first grid {nf0} faces x <= {nm0} corners, second grid {n_face} faces x <= {n_max} corners, nodes < {n_node}", tiers=tiers, cost=3,
                       timeout_s=3000, query_timeout_s=1500)
 
 
@@ -312,7 +314,7 @@ def obligations(tier):
              title="edge tables (face rows), 2 faces x <= 4 corners, caller's table column-major in memory"),
         make_supplied_edges("C02.supplied_edges"),
         make("C02.grid.2f3.sparse", 2, 3, 12, "A", title="edge tables, 2 triangles, sparse node numbering (ids < 12)"),
-        make_history("C02.history.2f3", 2, 3, 4),
+        make_history("C02.history.2f3", 2, 3, 4), make_history("C02.history.1f6_2f3", 2, 3, 6, first=(1, 6)),
         make("C02.grid.2f5.A", 2, 5, 8, "A", tiers=("thorough",), cost=20),
         make("C02.grid.2f4.rank", 2, 4, 6, "A", tiers=("thorough",), unique_mode="rank", cost=20,
              title="cross-check with the functional (rank-by-counting) encoding of np.unique"),
